@@ -150,10 +150,11 @@ theorem c14_keep_password_keeps_mail (L E : Nat) (oldPwd oldMail newMail : Bytes
     by_cases h2 : strnlen oldMail E < E ∧ strnlen newMail E < E
     · rw [if_pos h2]
       simp only
-      by_cases h3 : strnlen (oldMail.drop (strnlen oldMail E + 1)) (E - strnlen oldMail E - 1) < E - strnlen oldMail E - 1
+      by_cases h3 : strnlen (oldMail.drop (strnlen oldMail E + 1)) (E - strnlen oldMail E - 1) < E - strnlen oldMail E - 1 ∧
+          strnlen newMail E < E - 1
       · rw [if_pos h3]
         simp only
-        generalize (List.take _ (List.drop (strnlen oldMail E + 1) oldMail)) = d
+        generalize (List.take _ (List.drop (strnlen oldMail E + 1) oldMail) ++ [0]) = d
         rw [hnm]
         generalize hc : Bytes.cstr newMail = c at hsplit hnn hn hnm
         have hpoke : poke newMail (c.length + 1) d = c ++ 0 :: (d ++ newMail.drop (c.length + 1 + d.length)) := by
@@ -442,6 +443,44 @@ example : postScan Gen.formTable Gen.formPro false [80, 79, 83, 84, 32, 47, 32, 
     some (5, [(1, [110, 32, 49, 0]), (3, [115, 46, 101, 120, 0]), (20, [97, 64, 98, 0]), (10, [49, 0])], false) := by decide
 set_option maxRecDepth 20000 in
 example : postScan Gen.formTable Gen.formPro false [71, 69, 84, 32, 47, 32, 72, 84, 84, 80, 47, 49, 46, 49, 13, 10, 13, 10, 115, 105, 100, 61, 110, 43, 49, 38, 115, 118, 114, 61, 115, 46, 101, 120, 38, 101, 109, 108, 61, 97, 37, 52, 48, 98, 38, 112, 114, 111, 61, 48, 38, 108, 101, 100, 61, 49] = none := by decide
+
+/-- a byte placed behind `A` and `T` survives the cut to the field size and stands behind `A` -/
+theorem mem_drop_take_poke (A T R : Bytes) (x : UInt8) (E : Nat) (h : A.length + T.length + 1 ≤ E) :
+    x ∈ ((A ++ (T ++ [x]) ++ R).take E).drop A.length := by
+  rw [List.append_assoc, List.take_append, List.take_of_length_le (by omega : A.length ≤ E)]
+  rw [List.drop_append, List.drop_of_length_le (Nat.le_refl _), Nat.sub_self, List.drop_zero, List.nil_append]
+  rw [List.take_append, List.take_of_length_le (by simp; omega)]
+  simp
+
+/-- **C14 (the kept overflow part is a terminated string inside the field)** whenever the stored long password is carried
+    over behind a new e-mail (long password stored, both e-mails terminated, the old part terminated, at least one byte of
+    room behind the new e-mail's terminator): what stands behind the new e-mail's terminator contains a terminator inside the
+    Email field - for every stored password, every old and every new e-mail, also when the part has to be cut. -/
+theorem c14_kept_part_is_terminated (L E : Nat) (oldPwd oldMail newMail : Bytes) (hlen : newMail.length = E)
+    (h1 : strnlen oldPwd L = L) (h2 : strnlen oldMail E < E ∧ strnlen newMail E < E)
+    (h3 : strnlen (oldMail.drop (strnlen oldMail E + 1)) (E - strnlen oldMail E - 1) < E - strnlen oldMail E - 1 ∧
+          strnlen newMail E < E - 1) :
+    (0 : UInt8) ∈ (keepLongPassword L E oldPwd oldMail newMail).2.drop (strnlen newMail E + 1) := by
+  unfold keepLongPassword
+  rw [if_pos h1, if_pos h2]
+  simp only
+  rw [if_pos h3]
+  simp only
+  generalize hn : strnlen newMail E = n at h3 ⊢
+  generalize List.drop (strnlen oldMail E + 1) oldMail = src
+  generalize hp : (if strnlen src (E - strnlen oldMail E - 1) > E - n - 2 then E - n - 2 else strnlen src (E - strnlen oldMail E - 1)) = p
+  have hple : p ≤ E - n - 2 := by rw [← hp]; split <;> omega
+  have hT : (src.take p).length ≤ p := by rw [List.length_take]; exact Nat.min_le_left _ _
+  have hk : (newMail.take (n + 1)).length = n + 1 := by rw [List.length_take]; omega
+  unfold poke
+  have := mem_drop_take_poke (newMail.take (n + 1)) (src.take p) (newMail.drop (n + 1 + (src.take p ++ [0]).length)) 0 E (by omega)
+  rw [hk] at this
+  exact this
+
+/-- non-vacuity of the cut: Password field 4, Email field 12, overflow part "QQQQQQQ" (7) behind "ab"; the new e-mail "wxyz" leaves
+    room for 5 characters and the terminator -/
+example : keepLongPassword 4 12 [80, 80, 80, 80] [97, 98, 0, 81, 81, 81, 81, 81, 81, 81, 0, 0] [119, 120, 121, 122, 0, 0, 0, 0, 0, 0, 0, 0] =
+    ([80, 80, 80, 80], [119, 120, 121, 122, 0, 81, 81, 81, 81, 81, 81, 0]) := by decide
 
 /-- non-vacuity: Password field of 4, Email field of 12: the stored password "PPPP" + overflow "QQ" behind "ab", new e-mail
     "wxyz": the e-mail stays "wxyz", the overflow part follows its terminator -/
